@@ -85,7 +85,7 @@ def handle (args : List String) : String :=
             cstShape := (pInts (g "cst_shape")).map Int.toNat, cst := pFloat (g "cst") }
     | "rope" =>
       rope { x := pShapeD (g "x"), xe := pShapeD (g "xe"), sl := pInts (g "sl"), partialRot := pBool (g "partial"),
-             pEnd1 := pInt (g "p_end1"), pStart2 := pInt (g "p_start2"), posRank := pNat (g "pos_rank"), inv0 := pNat (g "inv0"),
+             pEnd1 := pInt (g "p_end1"), pStart2 := pInt (g "p_start2"), posRank := pNat (g "pos_rank"), inv0 := pNat (g "inv0"), cast16 := pBool (g "cast16"), posConst := pBool (g "pos_const"),
              odd := pBool (g "odd") }
     | "sdpa" =>
       sdpa { q := pShapeD (g "q"), k := pShapeD (g "k"), v := pShapeD (g "v"), kpat := pNat (g "kpat"),
@@ -122,7 +122,7 @@ def handle (args : List String) : String :=
              preConst := pBool (g "pre_const"), ascale := pOptFloat (g "ascale"), mask := pBool (g "mask") }
     | "pipe" =>
       pipe { qm := pShapeD (g "qm"), heads := pNat (g "heads"), qProj := g "q_proj", kb := pBool (g "kb"),
-             vb := pBool (g "vb"), s := pFloat (g "s"), sdpaScale := pOptFloat (g "sdpa_scale"), mask := pBool (g "mask") }
+             vb := pBool (g "vb"), s := pFloat (g "s"), sdpaScale := pOptFloat (g "sdpa_scale"), mask := pBool (g "mask"), mask1d := pBool (g "mask1d") }
     | _ => "ERR:family"
 
 end OV.Drivers.C19
